@@ -2,15 +2,17 @@
 (***************************************************************************)
 (* Implementation-shaped model of the outbound side of an ntex-mqtt        *)
 (* connection: MqttShared / MqttSink (src/v3/shared.rs, src/v5/shared.rs,  *)
-(* src/v3/sink.rs, src/v5/sink.rs).                                        *)
+(* src/v3/sink.rs, src/v5/sink.rs), as of the current tree (i.e. with the  *)
+(* three "fix:" commits recorded in known_findings.json; the model of the  *)
+(* code before them, in which TLC exhibited the defects, is kept in        *)
+(* legacy/SinkLegacy.tla).                                                 *)
 (*                                                                         *)
 (* One action per harness command = one await-delimited section of the     *)
 (* code followed by running the connection's own tasks to quiescence (the  *)
-(* connection lives on a single-threaded runtime; sender futures are       *)
-(* owned and polled by the environment, so the window between "woken" and  *)
+(* connection lives on a single-threaded runtime; sender futures are owned *)
+(* and polled by the environment, so the window between "woken" and        *)
 (* "resumed" is explicit).  DESIGN.md appendix B is the step structure     *)
-(* this module transcribes; deliberate oddities of the code are modelled   *)
-(* as they are and marked ODDITY.                                          *)
+(* this module transcribes.                                                *)
 (*                                                                         *)
 (* Every action emits the observable events the real harness records; the  *)
 (* monitor SinkMon consumes them (variable mon).                           *)
@@ -27,7 +29,7 @@ CONSTANTS
   UseWrb,     \* BOOLEAN: back-pressure notifications are part of the environment
   UseCancel,  \* BOOLEAN: sender futures may be dropped
   CallerIds,  \* set of caller-chosen ids offered to Send (0 = automatic)
-  Fixed       \* BOOLEAN: model the repaired code (see known_findings.json)
+  Fixed       \* unused (kept so that configurations stay comparable with the legacy model)
 
 Mon == INSTANCE SinkMon
 
@@ -35,10 +37,10 @@ Senders == 1..Len(Kinds)
 RelOf(s) == s + 20                      \* harness slot of the release future of sender s
 
 VARIABLES
-  inflight,   \* Seq of [id, tx, tp]: tx = sender index, 0 = none, -1 = completion channel
+  inflight,   \* Seq of [id, tx, tp]: tx = sender index (reply channel), 0 = receiver gone
   ids,        \* inflight_ids
   waiters,    \* Seq of sender indices (readiness channels, FIFO)
-  rxSlot,     \* id whose completion-channel receiver sits in the single `rx` slot (0 = empty)
+  received,   \* QoS 2 exchanges: PUBREC received, PUBREL not yet written
   wrb,        \* WRB_ENABLED
   nextId,     \* inflight_idx
   closed,     \* io closed
@@ -48,17 +50,17 @@ VARIABLES
   mon,        \* monitor state (SinkMon)
   hist        \* command history (replay file); not part of the VIEW
 
-vars == <<inflight, ids, waiters, rxSlot, wrb, nextId, closed, sd, owedP, nbad, uses, mon, hist>>
-view == <<inflight, ids, waiters, rxSlot, wrb, nextId, closed, sd, owedP, nbad, uses, mon>>
+vars == <<inflight, ids, waiters, received, wrb, nextId, closed, sd, owedP, nbad, uses, mon, hist>>
+view == <<inflight, ids, waiters, received, wrb, nextId, closed, sd, owedP, nbad, uses, mon>>
 
 E(e, k, s, id, q, r, n) == [e |-> e, k |-> k, s |-> s, id |-> id, q |-> q, r |-> r, n |-> n, x |-> ""]
 Quiet == E("quiet", "alive", 0, 0, 0, 0, 0)
 
 NoSender == [pc |-> "idle", w |-> "none", a |-> "none", av |-> "none", id |-> 0, cid |-> 0,
-             rid |-> 0, res |-> "none"]
+             res |-> "none"]
 
 Init ==
-  /\ inflight = << >> /\ ids = {} /\ waiters = << >> /\ rxSlot = 0 /\ wrb = FALSE
+  /\ inflight = << >> /\ ids = {} /\ waiters = << >> /\ received = 0 /\ wrb = FALSE
   /\ nextId = 0 /\ closed = FALSE
   /\ sd = [s \in Senders |-> NoSender]
   /\ owedP = << >> /\ nbad = 0 /\ uses = [s \in Senders |-> 0]
@@ -71,10 +73,9 @@ Init ==
 ----------------------------------------------------------------------------
 \* helpers over the code's data structures
 
-NotReady == Len(inflight) >= Cap \/ wrb                 \* wait_readiness() parks
-
-\* next_id(): returns <<id, new counter>>
-NextIdPair == LET idx == nextId + 1 IN IF idx = IdMax THEN <<IdMax, 0>> ELSE <<idx, idx>>
+UsedOf(infl, rcv) == Len(infl) + rcv
+NotReadyOf(infl, rcv) == UsedOf(infl, rcv) >= Cap \/ wrb        \* wait_readiness() parks
+NotReady == NotReadyOf(inflight, received)
 
 TpOf(kind) == CASE kind = "q1" -> "Publish" [] kind = "q2" -> "Receive"
                 [] kind = "sub" -> "Subscribe" [] kind = "unsub" -> "Unsubscribe"
@@ -101,6 +102,10 @@ WakeN(ws, tbl, n) ==
          THEN WakeN(Tail(ws), [tbl EXCEPT ![s].w = "ok"], n - 1)
          ELSE WakeN(Tail(ws), tbl, n)
 
+\* wake_waiter(): wake the next waiter if the window has a free slot
+WakeIfFree(ws, tbl, infl, rcv) ==
+  IF UsedOf(infl, rcv) < Cap /\ ~wrb THEN WakeN(ws, tbl, 1) ELSE <<ws, tbl>>
+
 \* clear_queues(): every readiness channel and every reply channel loses its sender side
 Cleared(tbl) ==
   [s \in Senders |->
@@ -109,39 +114,27 @@ Cleared(tbl) ==
                !.a = IF @ = "pend" THEN "cancel" ELSE @]]
 
 ----------------------------------------------------------------------------
-\* the inner part of a publish send: packet id + wait_publish_response (E in appendix B)
-\* returns [tbl, inflight, ids, nextId, owed, evs]
-PubInner(s, tbl, infl, idset, nid, owed) ==
-  LET kind == Kinds[s]
-      auto == tbl[s].cid = 0
-      idx == IF auto THEN nid + 1 ELSE 0
-      pid == IF auto THEN (IF idx = IdMax THEN IdMax ELSE idx) ELSE tbl[s].cid
-      nid2 == IF auto THEN (IF idx = IdMax THEN 0 ELSE idx) ELSE nid
-  IN IF pid \in idset
-       THEN [tbl |-> [tbl EXCEPT ![s].pc = "rdy", ![s].res = "PacketIdInUse", ![s].id = pid],
-             infl |-> infl, ids |-> idset, nid |-> nid2, owed |-> owed, evs |-> << >>]
-       ELSE [tbl |-> [tbl EXCEPT ![s].pc = "ack", ![s].a = "pend", ![s].id = pid],
-             infl |-> Append(infl, [id |-> pid, tx |-> s, tp |-> TpOf(kind)]),
-             ids |-> idset \cup {pid}, nid |-> nid2,
-             owed |-> Append(owed, [id |-> pid, a |-> AckNameOf(TpOf(kind))]),
-             evs |-> << E("out", "PUBLISH", 0, pid, QosOf(kind), 0, 1) >>]
-
-\* subscribe / unsubscribe after readiness: id, wait_response, encode_packet
-SubInner(s, tbl, infl, idset, nid, owed) ==
+\* packet id + wait_publish_response / wait_response + encode
+\* returns [tbl, infl, ids, nid, owed, evs]
+Inner(s, tbl, infl, idset, nid, owed) ==
   LET kind == Kinds[s]
       auto == tbl[s].cid = 0
       idx == nid + 1
       pid == IF auto THEN (IF idx = IdMax THEN IdMax ELSE idx) ELSE tbl[s].cid
       nid2 == IF auto THEN (IF idx = IdMax THEN 0 ELSE idx) ELSE nid
+      outEv == IF kind \in {"q1", "q2"}
+                 THEN E("out", "PUBLISH", 0, pid, QosOf(kind), 0, 1)
+                 ELSE E("out", OutName(kind), 0, pid, 0, 0, 0)
   IN IF pid \in idset
        THEN [tbl |-> [tbl EXCEPT ![s].pc = "rdy", ![s].res = "PacketIdInUse", ![s].id = pid],
              infl |-> infl, ids |-> idset, nid |-> nid2, owed |-> owed, evs |-> << >>]
        ELSE [tbl |-> [tbl EXCEPT ![s].pc = "ack", ![s].a = "pend", ![s].id = pid],
              infl |-> Append(infl, [id |-> pid, tx |-> s, tp |-> TpOf(kind)]),
              ids |-> idset \cup {pid}, nid |-> nid2,
-             owed |-> Append(owed, [id |-> pid, a |-> AckNameOf(TpOf(kind))]),
-             evs |-> << E("out", OutName(kind), 0, pid, 0, 0, 0) >>]
+             owed |-> IF closed THEN owed ELSE Append(owed, [id |-> pid, a |-> AckNameOf(TpOf(kind))]),
+             evs |-> IF closed THEN << >> ELSE << outEv >>]
 
+\* the window check and the encode happen inside the call
 Eager(kind) == (Ver = 3 /\ kind \in {"q1", "q2"}) \/ (Ver = 5 /\ kind = "q2")
 
 ----------------------------------------------------------------------------
@@ -155,11 +148,16 @@ Send(s, cid) ==
      IN
      IF kind \in {"sub", "unsub"}
        THEN \* async fn: nothing happens at call time
-            /\ sd' = [sd EXCEPT ![s] = [base EXCEPT !.pc = "lazyR"]]
+            /\ sd' = [sd EXCEPT ![s] = [base EXCEPT !.pc = "lazy"]]
             /\ UNCHANGED <<inflight, ids, waiters, nextId, owedP>>
             /\ mon' = Mon!StepAll(mon, <<call, Quiet>>)
      ELSE IF closed
        THEN /\ sd' = [sd EXCEPT ![s] = [base EXCEPT !.pc = "rdy", !.res = "Disconnected"]]
+            /\ UNCHANGED <<inflight, ids, waiters, nextId, owedP>>
+            /\ mon' = Mon!StepAll(mon, <<call, Quiet>>)
+     ELSE IF kind = "q1" /\ Ver = 5
+       THEN \* v5 QoS 1: the window is checked when the packet is encoded (first poll)
+            /\ sd' = [sd EXCEPT ![s] = [base EXCEPT !.pc = "lazy"]]
             /\ UNCHANGED <<inflight, ids, waiters, nextId, owedP>>
             /\ mon' = Mon!StepAll(mon, <<call, Quiet>>)
      ELSE IF NotReady
@@ -172,243 +170,202 @@ Send(s, cid) ==
        THEN /\ sd' = [sd EXCEPT ![s] = [base EXCEPT !.pc = "rdy", !.res = "ok"]]
             /\ UNCHANGED <<inflight, ids, waiters, nextId, owedP>>
             /\ mon' = Mon!StepAll(mon, <<call, Quiet>>)
-     ELSE IF Eager(kind)
-       THEN \* v3 (and v5 QoS 2): id + encode happen inside the call
-            LET r == PubInner(s, [sd EXCEPT ![s] = base], inflight, ids, nextId, owedP) IN
+     ELSE \* eager: id + encode happen inside the call
+            LET r == Inner(s, [sd EXCEPT ![s] = base], inflight, ids, nextId, owedP) IN
             /\ sd' = r.tbl /\ inflight' = r.infl /\ ids' = r.ids /\ nextId' = r.nid
             /\ owedP' = r.owed /\ UNCHANGED waiters
             /\ mon' = Mon!StepAll(mon, <<call>> \o r.evs \o <<Quiet>>)
-     ELSE \* v5 QoS 1: readiness passed at call, id + encode deferred to the first poll (ODDITY)
-            /\ sd' = [sd EXCEPT ![s] = [base EXCEPT !.pc = "lazyE"]]
-            /\ UNCHANGED <<inflight, ids, waiters, nextId, owedP>>
-            /\ mon' = Mon!StepAll(mon, <<call, Quiet>>)
-  /\ UNCHANGED <<rxSlot, wrb, closed, nbad>>
-  /\ hist' = Append(hist, [c |-> "send", s |-> s, k |-> Kinds[s], id |-> cid])
+  /\ UNCHANGED <<received, wrb, closed, nbad>>
+  /\ hist' = Append(hist, "s" \o ToString(s) \o ":" \o Kinds[s] \o ":" \o ToString(cid))
 
 \* completion of a reply channel: how the API maps the delivered acknowledgement
-\* returns <<result string, panics?>>
-MapAck(kind, av) ==
-  IF Ver = 5 THEN
-     (CASE kind = "q1" -> IF av = "Publish" THEN <<"ok", FALSE>> ELSE <<"panic", TRUE>>
-        [] kind = "q2" -> IF av = "Receive" THEN <<"receipt", FALSE>> ELSE <<"panic", TRUE>>
-        [] kind = "sub" -> IF av = "Subscribe" THEN <<"ok", FALSE>> ELSE <<"panic", TRUE>>
-        [] kind = "unsub" -> IF av = "Unsubscribe" THEN <<"ok", FALSE>> ELSE <<"panic", TRUE>>
-        [] OTHER -> <<"ok", FALSE>>)
-  ELSE
-     (CASE kind = "q2" -> <<"receipt", FALSE>>                       \* ODDITY: kind not inspected
-        [] kind = "sub" -> IF av = "Subscribe" THEN <<"ok", FALSE>> ELSE <<"panic", TRUE>>
-        [] OTHER -> <<"ok", FALSE>>)
+MapAck(kind) == IF kind = "q2" THEN "receipt" ELSE "ok"
 
 \* Poll(s): the environment polls the sender future once
 Poll(s) ==
-  /\ sd[s].pc \in {"lazyR", "lazyE", "parked", "ack", "rdy"}
+  /\ sd[s].pc \in {"lazy", "parked", "ack", "rdy"}
   /\ LET kind == Kinds[s]
          r == sd[s]
          poll(k) == E("send_poll", k, s, 0, 0, 0, 0)
-         done(res, id) == E("send_done", res, s, IF Ver = 5 THEN id ELSE 0, 0, 0, 0)
+         done(res, id) == E("send_done", res, s, IF Ver = 5 \/ res = "PacketIdInUse" THEN id ELSE 0, 0, 0, 0)
+         \* the window is free (or the waiter was notified and re-checked): id, register, encode
+         Proceed(tbl0) ==
+           LET x == Inner(s, tbl0, inflight, ids, nextId, owedP) IN
+           /\ inflight' = x.infl /\ ids' = x.ids /\ nextId' = x.nid /\ owedP' = x.owed
+           /\ UNCHANGED waiters
+           /\ IF x.tbl[s].pc = "rdy"
+                THEN /\ sd' = [x.tbl EXCEPT ![s].pc = "done"]
+                     /\ mon' = Mon!StepAll(mon, <<poll("ready"), done("PacketIdInUse", x.tbl[s].id), Quiet>>)
+                ELSE /\ sd' = x.tbl
+                     /\ mon' = Mon!StepAll(mon, x.evs \o <<poll("pending"), Quiet>>)
+         Park ==
+           /\ sd' = [sd EXCEPT ![s].pc = "parked", ![s].w = "pend"]
+           /\ waiters' = Append(waiters, s)
+           /\ mon' = Mon!StepAll(mon, <<poll("pending"), Quiet>>)
+           /\ UNCHANGED <<inflight, ids, nextId, owedP>>
+         Finish(res, id) ==
+           /\ sd' = [sd EXCEPT ![s].pc = "done"]
+           /\ mon' = Mon!StepAll(mon, <<poll("ready"), done(res, id), Quiet>>)
+           /\ UNCHANGED <<inflight, ids, waiters, nextId, owedP>>
      IN
-     CASE r.pc = "rdy" ->
-            /\ sd' = [sd EXCEPT ![s].pc = "done"]
-            /\ mon' = Mon!StepAll(mon, <<poll("ready"), done(r.res, IF r.res = "PacketIdInUse" THEN r.id ELSE 0), Quiet>>)
-            /\ UNCHANGED <<inflight, ids, waiters, nextId, owedP>>
-       [] r.pc = "lazyE" ->
-            LET x == PubInner(s, sd, inflight, ids, nextId, owedP) IN
-            /\ inflight' = x.infl /\ ids' = x.ids /\ nextId' = x.nid /\ owedP' = x.owed
-            /\ UNCHANGED waiters
-            /\ IF x.tbl[s].pc = "rdy"
-                 THEN /\ sd' = [x.tbl EXCEPT ![s].pc = "done"]
-                      /\ mon' = Mon!StepAll(mon, <<poll("ready"), done("PacketIdInUse", x.tbl[s].id), Quiet>>)
-                 ELSE /\ sd' = x.tbl
-                      /\ mon' = Mon!StepAll(mon, x.evs \o <<poll("pending"), Quiet>>)
-       [] r.pc = "lazyR" ->
-            IF closed
-              THEN /\ sd' = [sd EXCEPT ![s].pc = "done"]
-                   /\ mon' = Mon!StepAll(mon, <<poll("ready"), done("Disconnected", 0), Quiet>>)
-                   /\ UNCHANGED <<inflight, ids, waiters, nextId, owedP>>
-            ELSE IF NotReady
-              THEN /\ sd' = [sd EXCEPT ![s].pc = "parked", ![s].w = "pend"]
-                   /\ waiters' = Append(waiters, s)
-                   /\ mon' = Mon!StepAll(mon, <<poll("pending"), Quiet>>)
-                   /\ UNCHANGED <<inflight, ids, nextId, owedP>>
-            ELSE LET x == SubInner(s, sd, inflight, ids, nextId, owedP) IN
-                   /\ inflight' = x.infl /\ ids' = x.ids /\ nextId' = x.nid /\ owedP' = x.owed
-                   /\ UNCHANGED waiters
-                   /\ IF x.tbl[s].pc = "rdy"
-                        THEN /\ sd' = [x.tbl EXCEPT ![s].pc = "done"]
-                             /\ mon' = Mon!StepAll(mon, <<poll("ready"), done("PacketIdInUse", x.tbl[s].id), Quiet>>)
-                        ELSE /\ sd' = x.tbl
-                             /\ mon' = Mon!StepAll(mon, x.evs \o <<poll("pending"), Quiet>>)
+     CASE r.pc = "rdy" -> Finish(r.res, IF r.res = "PacketIdInUse" THEN r.id ELSE 0)
+       [] r.pc = "lazy" ->
+            IF closed /\ kind \in {"sub", "unsub"} THEN Finish("Disconnected", 0)
+            ELSE IF NotReady THEN Park
+            ELSE Proceed(sd)
        [] r.pc = "parked" ->
-            CASE r.w = "pend" ->
+            (CASE r.w = "pend" ->
                    /\ mon' = Mon!StepAll(mon, <<poll("pending"), Quiet>>)
                    /\ UNCHANGED <<sd, inflight, ids, waiters, nextId, owedP>>
-              [] r.w = "cancel" ->
-                   /\ sd' = [sd EXCEPT ![s].pc = "done"]
-                   /\ mon' = Mon!StepAll(mon, <<poll("ready"), done("Disconnected", 0), Quiet>>)
-                   /\ UNCHANGED <<inflight, ids, waiters, nextId, owedP>>
-              [] r.w = "ok" ->
-                   \* woken: proceeds WITHOUT re-checking the window (ODDITY, source of C05)
-                   IF Fixed /\ kind # "ready" /\ NotReady /\ ~closed
-                     THEN \* repaired code re-checks and parks again
-                          /\ sd' = [sd EXCEPT ![s].w = "pend"]
-                          /\ waiters' = Append(waiters, s)
-                          /\ mon' = Mon!StepAll(mon, <<poll("pending"), Quiet>>)
-                          /\ UNCHANGED <<inflight, ids, nextId, owedP>>
+               [] r.w = "cancel" -> Finish("Disconnected", 0)
+               [] r.w = "ok" ->
+                   \* Waiter: notified, the slot may have been taken meanwhile -> queue again
+                   IF NotReady THEN Park
                    ELSE IF kind = "ready"
-                     THEN /\ sd' = [sd EXCEPT ![s].pc = "done"]
+                     THEN \* readiness does not use a slot: pass the notification on
+                          LET w == WakeIfFree(waiters, [sd EXCEPT ![s].pc = "done"], inflight, received) IN
+                          /\ sd' = w[2] /\ waiters' = w[1]
                           /\ mon' = Mon!StepAll(mon, <<poll("ready"), done("ok", 0), Quiet>>)
-                          /\ UNCHANGED <<inflight, ids, waiters, nextId, owedP>>
-                   ELSE LET x == IF kind \in {"sub", "unsub"}
-                                   THEN SubInner(s, sd, inflight, ids, nextId, owedP)
-                                   ELSE PubInner(s, sd, inflight, ids, nextId, owedP) IN
-                          /\ inflight' = x.infl /\ ids' = x.ids /\ nextId' = x.nid
-                          /\ owedP' = x.owed /\ UNCHANGED waiters
-                          /\ IF x.tbl[s].pc = "rdy"
-                               THEN /\ sd' = [x.tbl EXCEPT ![s].pc = "done"]
-                                    /\ mon' = Mon!StepAll(mon, <<poll("ready"), done("PacketIdInUse", x.tbl[s].id), Quiet>>)
-                               ELSE /\ sd' = x.tbl
-                                    /\ mon' = Mon!StepAll(mon, x.evs \o <<poll("pending"), Quiet>>)
+                          /\ UNCHANGED <<inflight, ids, nextId, owedP>>
+                   ELSE Proceed(sd))
        [] r.pc = "ack" ->
-            CASE r.a = "pend" ->
+            (CASE r.a = "pend" ->
                    /\ mon' = Mon!StepAll(mon, <<poll("pending"), Quiet>>)
                    /\ UNCHANGED <<sd, inflight, ids, waiters, nextId, owedP>>
-              [] r.a = "cancel" ->
-                   /\ sd' = [sd EXCEPT ![s].pc = "done"]
-                   /\ mon' = Mon!StepAll(mon, <<poll("ready"), done("Disconnected", 0), Quiet>>)
+               [] r.a = "cancel" -> Finish("Disconnected", 0)
+               [] r.a = "ok" ->
                    /\ UNCHANGED <<inflight, ids, waiters, nextId, owedP>>
-              [] r.a = "ok" ->
-                   LET m == MapAck(kind, r.av) IN
-                   /\ UNCHANGED <<inflight, ids, waiters, nextId, owedP>>
-                   /\ IF m[2]
-                        THEN /\ sd' = [sd EXCEPT ![s].pc = "done"]
-                             /\ mon' = Mon!StepAll(mon, <<E("panic", "sender", s, 0, 0, 0, 0), Quiet>>)
-                        ELSE IF m[1] = "receipt"
-                          THEN /\ sd' = [sd EXCEPT ![s].pc = "hold"]
-                               /\ mon' = Mon!StepAll(mon, <<poll("ready"), done("receipt", r.id), Quiet>>)
-                          ELSE /\ sd' = [sd EXCEPT ![s].pc = "done"]
-                               /\ mon' = Mon!StepAll(mon, <<poll("ready"), done("ok", r.id), Quiet>>)
-  /\ UNCHANGED <<rxSlot, wrb, closed, nbad, uses>>
-  /\ hist' = Append(hist, [c |-> "poll", s |-> s])
+                   /\ IF MapAck(kind) = "receipt"
+                        THEN /\ sd' = [sd EXCEPT ![s].pc = "hold"]
+                             /\ mon' = Mon!StepAll(mon, <<poll("ready"), done("receipt", r.id), Quiet>>)
+                        ELSE /\ sd' = [sd EXCEPT ![s].pc = "done"]
+                             /\ mon' = Mon!StepAll(mon, <<poll("ready"), done("ok", r.id), Quiet>>))
+  /\ UNCHANGED <<received, wrb, closed, nbad, uses>>
+  /\ hist' = Append(hist, "p" \o ToString(s))
 
 \* Drop(s): the application drops (cancels) the send future
 Drop(s) ==
   /\ UseCancel
-  /\ sd[s].pc \in {"lazyR", "lazyE", "parked", "ack", "rdy"}
-  /\ sd' = [sd EXCEPT ![s].pc = "dropped"]
-  /\ mon' = Mon!StepAll(mon, <<E("send_drop", "", s, 0, 0, 0, 1), Quiet>>)
-  /\ UNCHANGED <<inflight, ids, waiters, rxSlot, wrb, nextId, closed, owedP, nbad, uses>>
-  /\ hist' = Append(hist, [c |-> "drop", s |-> s])
+  /\ sd[s].pc \in {"lazy", "parked", "ack", "rdy"}
+  /\ LET tbl == [sd EXCEPT ![s].pc = "dropped"]
+         ev == E("send_drop", "", s, 0, 0, 0, 1)
+     IN
+     IF sd[s].pc = "ack" /\ sd[s].a = "ok" /\ Kinds[s] = "q2" /\ ~closed /\ received > 0
+       THEN \* ReceiptWaiter::drop: PUBREC was delivered, the publish is released
+            /\ sd' = tbl /\ received' = received - 1
+            /\ inflight' = Append(inflight, [id |-> sd[s].id, tx |-> 0, tp |-> "Complete"])
+            /\ owedP' = Append(owedP, [id |-> sd[s].id, a |-> "PUBCOMP"])
+            /\ mon' = Mon!StepAll(mon, <<ev, E("out", "PUBREL", 0, sd[s].id, 0, 0, 0), Quiet>>)
+            /\ UNCHANGED waiters
+       ELSE \* Waiter::drop passes an unused notification on
+            LET w == IF sd[s].pc = "parked" /\ sd[s].w = "ok"
+                       THEN WakeIfFree(waiters, tbl, inflight, received) ELSE <<waiters, tbl>>
+            IN /\ sd' = w[2] /\ waiters' = w[1]
+               /\ mon' = Mon!StepAll(mon, <<ev, Quiet>>)
+               /\ UNCHANGED <<inflight, received, owedP>>
+  /\ UNCHANGED <<ids, wrb, nextId, closed, nbad, uses>>
+  /\ hist' = Append(hist, "d" \o ToString(s))
 
 ----------------------------------------------------------------------------
 \* protocol violation detected by pkt_ack(): close() + clear_queues(), the dispatcher stops
 \* with a protocol error
 Violation(inEv) ==
-  /\ closed' = TRUE /\ inflight' = << >> /\ waiters' = << >>
+  /\ closed' = TRUE /\ inflight' = << >> /\ waiters' = << >> /\ received' = 0
   /\ sd' = Cleared(sd)
   /\ mon' = Mon!StepAll(mon,
        <<inEv>> \o (IF Ver = 5 /\ ~closed THEN <<E("out", "DISCONNECT", 0, 0, 0, 131, 0)>> ELSE << >>)
        \o <<E("ctl", "stop_proto", 0, 0, 0, 0, 0), E("conn_done", "ok", 0, 0, 0, 0, 0), Quiet>>)
-  /\ UNCHANGED <<ids, wrb, nextId, rxSlot>>
+  /\ UNCHANGED <<ids, wrb, nextId>>
 
-\* the dispatcher hands an acknowledgement (ack name a, id) to pkt_ack_inner
-AckIn(a, id) ==
+\* the dispatcher hands an acknowledgement (ack name a, id) to pkt_ack_inner;
+\* owed = the peer's to-do list after this acknowledgement was sent
+AckIn(a, id, owed) ==
   LET inEv == E("in", a, 0, id, 0, 0, 0)
       tpA == TpOfAck(a) IN
-  IF closed THEN
-     \* io is closed: nothing is read any more
-     /\ mon' = Mon!StepAll(mon, <<Quiet>>)
-     /\ UNCHANGED <<inflight, ids, waiters, rxSlot, wrb, nextId, closed, sd>>
-  ELSE IF inflight = << >> THEN Violation(inEv)
-  ELSE LET h == Head(inflight) rest == Tail(inflight) IN
-    IF h.id # id THEN Violation(inEv)
-    ELSE IF tpA = "Receive" /\ (~Fixed \/ h.tp = "Receive") THEN
-      \* ODDITY: the expected type is not compared; a new completion channel replaces the slot
-      /\ inflight' = Append(rest, [id |-> id, tx |-> -1, tp |-> "Complete"])
-      /\ rxSlot' = id
-      /\ sd' = IF h.tx > 0 /\ sd[h.tx].pc = "ack" /\ sd[h.tx].a = "pend" /\ sd[h.tx].id = id
-                 THEN [sd EXCEPT ![h.tx].a = "ok", ![h.tx].av = "Receive"] ELSE sd
-      /\ mon' = Mon!StepAll(mon, <<inEv, Quiet>>)
-      /\ UNCHANGED <<ids, waiters, wrb, nextId, closed>>
-    ELSE IF tpA = "Complete" /\ (~Fixed \/ h.tp = "Complete") THEN
-      \* ODDITY: no type comparison; the rx slot is emptied whatever it holds
-      LET tbl1 == IF h.tx > 0 /\ sd[h.tx].pc = "ack" /\ sd[h.tx].a = "pend" /\ sd[h.tx].id = id
-                    THEN [sd EXCEPT ![h.tx].a = "ok", ![h.tx].av = "Complete"]
-                  ELSE IF h.tx = -1
-                    THEN [s \in Senders |->
-                            IF sd[s].pc = "relack" /\ sd[s].rid = id /\ sd[s].a = "pend"
-                              THEN [sd[s] EXCEPT !.a = "ok", !.av = "Complete"] ELSE sd[s]]
-                  ELSE sd
-          w == WakeN(waiters, tbl1, 1)
-      IN /\ inflight' = rest /\ ids' = ids \ {id} /\ rxSlot' = 0
-         /\ waiters' = w[1] /\ sd' = w[2]
-         /\ mon' = Mon!StepAll(mon, <<inEv, Quiet>>)
-         /\ UNCHANGED <<wrb, nextId, closed>>
-    ELSE IF h.tp = tpA THEN
-      LET tbl1 == IF h.tx > 0 /\ sd[h.tx].pc = "ack" /\ sd[h.tx].a = "pend" /\ sd[h.tx].id = id
-                    THEN [sd EXCEPT ![h.tx].a = "ok", ![h.tx].av = tpA] ELSE sd
+  IF inflight = << >> THEN Violation(inEv) /\ owedP' = owed
+  ELSE LET h == Head(inflight) rest == Tail(inflight)
+           alive == h.tx > 0 /\ sd[h.tx].pc = (IF h.tp = "Complete" THEN "relack" ELSE "ack")
+                    /\ sd[h.tx].a = "pend" /\ sd[h.tx].id = id
+       IN
+    IF h.id # id \/ h.tp # tpA THEN Violation(inEv) /\ owedP' = owed
+    ELSE IF tpA = "Receive" THEN
+      IF alive
+        THEN \* the sender takes the receipt; the exchange keeps its slot until PUBCOMP
+             /\ inflight' = rest /\ received' = received + 1
+             /\ sd' = [sd EXCEPT ![h.tx].a = "ok", ![h.tx].av = "Receive"]
+             /\ mon' = Mon!StepAll(mon, <<inEv, Quiet>>)
+             /\ owedP' = owed
+             /\ UNCHANGED <<ids, waiters, wrb, nextId, closed>>
+        ELSE \* sender is gone: the publish is released on its behalf
+             /\ inflight' = Append(rest, [id |-> id, tx |-> 0, tp |-> "Complete"])
+             /\ owedP' = Append(owed, [id |-> id, a |-> "PUBCOMP"])
+             /\ mon' = Mon!StepAll(mon, <<inEv, E("out", "PUBREL", 0, id, 0, 0, 0), Quiet>>)
+             /\ UNCHANGED <<ids, waiters, received, wrb, nextId, closed, sd>>
+    ELSE
+      LET tbl1 == IF alive THEN [sd EXCEPT ![h.tx].a = "ok", ![h.tx].av = tpA] ELSE sd
           w == WakeN(waiters, tbl1, 1)
       IN /\ inflight' = rest /\ ids' = ids \ {id}
          /\ waiters' = w[1] /\ sd' = w[2]
          /\ mon' = Mon!StepAll(mon, <<inEv, Quiet>>)
-         /\ UNCHANGED <<rxSlot, wrb, nextId, closed>>
-    ELSE Violation(inEv)
+         /\ owedP' = owed
+         /\ UNCHANGED <<received, wrb, nextId, closed>>
 
 \* the orderly peer answers the oldest packet it received
 PeerAck ==
   /\ owedP # << >> /\ ~closed
-  /\ AckIn(Head(owedP).a, Head(owedP).id)
-  /\ owedP' = Tail(owedP)
+  /\ AckIn(Head(owedP).a, Head(owedP).id, Tail(owedP))
   /\ UNCHANGED <<nbad, uses>>
-  /\ hist' = Append(hist, [c |-> "ack", n |-> 1])
+  /\ hist' = Append(hist, "a")
 
 \* a peer that answers wrongly: any acknowledgement type and id that is not Head(owedP)
 PeerBad(a, id) ==
   /\ nbad < MaxBad /\ ~closed
   /\ ~(owedP # << >> /\ Head(owedP).a = a /\ Head(owedP).id = id)
-  /\ AckIn(a, id)
+  /\ AckIn(a, id, owedP)
   /\ nbad' = nbad + 1
-  /\ UNCHANGED <<owedP, uses>>
-  /\ hist' = Append(hist, [c |-> "in", t |-> a, id |-> id])
+  /\ UNCHANGED uses
+  /\ hist' = Append(hist, "b" \o a \o ":" \o ToString(id))
 
 ----------------------------------------------------------------------------
 \* QoS 2 receipts
 Release(s) ==
   /\ sd[s].pc = "hold"
-  /\ LET rel == E("release", "", s, 0, 0, 0, RelOf(s))
-         call == E("send_call", "rel", RelOf(s), 0, 0, 0, 0) IN
-     IF rxSlot = 0
-       THEN \* release_publish(): nothing in the slot
-            /\ sd' = [sd EXCEPT ![s].pc = "done"]
-            /\ mon' = Mon!StepAll(mon, <<rel, E("send_done", "UnexpectedRelease", RelOf(s), 0, 0, 0, 0), Quiet>>)
-            /\ UNCHANGED <<rxSlot, owedP>>
-       ELSE \* takes whatever receiver the slot holds (ODDITY), writes PUBREL for its own id
-            /\ sd' = [sd EXCEPT ![s].pc = "relack", ![s].rid = rxSlot,
-                                 ![s].a = IF closed THEN "cancel" ELSE "pend"]
-            /\ rxSlot' = 0
-            /\ owedP' = IF closed THEN owedP ELSE Append(owedP, [id |-> sd[s].id, a |-> "PUBCOMP"])
-            /\ mon' = Mon!StepAll(mon, <<rel>> \o (IF closed THEN << >> ELSE <<E("out", "PUBREL", 0, sd[s].id, 0, 0, 0)>>) \o <<Quiet>>)
-  /\ UNCHANGED <<inflight, ids, waiters, wrb, nextId, closed, nbad, uses>>
-  /\ hist' = Append(hist, [c |-> "release", s |-> s])
+  /\ LET rel == E("release", "", s, 0, 0, 0, RelOf(s)) IN
+     IF closed \/ received = 0
+       THEN /\ sd' = [sd EXCEPT ![s].pc = "done"]
+            /\ mon' = Mon!StepAll(mon, <<rel, E("send_poll", "ready", RelOf(s), 0, 0, 0, 0),
+                       E("send_done", IF closed THEN "Disconnected" ELSE "UnexpectedRelease", RelOf(s), 0, 0, 0, 0), Quiet>>)
+            /\ UNCHANGED <<inflight, received, owedP>>
+       ELSE \* PUBREL is written now, and PUBCOMP is expected in that order
+            /\ received' = received - 1
+            /\ inflight' = Append(inflight, [id |-> sd[s].id, tx |-> s, tp |-> "Complete"])
+            /\ sd' = [sd EXCEPT ![s].pc = "relack", ![s].a = "pend"]
+            /\ owedP' = Append(owedP, [id |-> sd[s].id, a |-> "PUBCOMP"])
+            /\ mon' = Mon!StepAll(mon, <<rel, E("out", "PUBREL", 0, sd[s].id, 0, 0, 0),
+                                         E("send_poll", "pending", RelOf(s), 0, 0, 0, 0), Quiet>>)
+  /\ UNCHANGED <<ids, waiters, wrb, nextId, closed, nbad, uses>>
+  /\ hist' = Append(hist, "r" \o ToString(s))
 
 RelPoll(s) ==
   /\ sd[s].pc = "relack" /\ sd[s].a \in {"ok", "cancel"}
   /\ sd' = [sd EXCEPT ![s].pc = "done"]
   /\ mon' = Mon!StepAll(mon, <<E("send_poll", "ready", RelOf(s), 0, 0, 0, 0),
                                E("send_done", IF sd[s].a = "ok" THEN "ok" ELSE "Disconnected", RelOf(s), 0, 0, 0, 0), Quiet>>)
-  /\ UNCHANGED <<inflight, ids, waiters, rxSlot, wrb, nextId, closed, owedP, nbad, uses>>
-  /\ hist' = Append(hist, [c |-> "poll", s |-> RelOf(s)])
+  /\ UNCHANGED <<inflight, ids, waiters, received, wrb, nextId, closed, owedP, nbad, uses>>
+  /\ hist' = Append(hist, "p" \o ToString(RelOf(s)))
 
 ReceiptDrop(s) ==
   /\ sd[s].pc = "hold"
   /\ sd' = [sd EXCEPT ![s].pc = "done"]
   /\ LET ev == E("receipt_drop", "", s, 0, 0, 0, 0) IN
-     IF rxSlot = 0
-       THEN /\ mon' = Mon!StepAll(mon, <<ev, Quiet>>) /\ UNCHANGED <<rxSlot, owedP>>
-       ELSE /\ rxSlot' = 0
-            /\ owedP' = IF closed THEN owedP ELSE Append(owedP, [id |-> sd[s].id, a |-> "PUBCOMP"])
-            /\ mon' = Mon!StepAll(mon, <<ev>> \o (IF closed THEN << >> ELSE <<E("out", "PUBREL", 0, sd[s].id, 0, 0, 0)>>) \o <<Quiet>>)
-  /\ UNCHANGED <<inflight, ids, waiters, wrb, nextId, closed, nbad, uses>>
-  /\ hist' = Append(hist, [c |-> "rdrop", s |-> s])
+     IF closed \/ received = 0
+       THEN /\ mon' = Mon!StepAll(mon, <<ev, Quiet>>) /\ UNCHANGED <<inflight, received, owedP>>
+       ELSE /\ received' = received - 1
+            /\ inflight' = Append(inflight, [id |-> sd[s].id, tx |-> 0, tp |-> "Complete"])
+            /\ owedP' = Append(owedP, [id |-> sd[s].id, a |-> "PUBCOMP"])
+            /\ mon' = Mon!StepAll(mon, <<ev, E("out", "PUBREL", 0, sd[s].id, 0, 0, 0), Quiet>>)
+  /\ UNCHANGED <<ids, waiters, wrb, nextId, closed, nbad, uses>>
+  /\ hist' = Append(hist, "x" \o ToString(s))
 
 ----------------------------------------------------------------------------
 \* write back-pressure notifications (Control::WrBackpressure -> enable/disable_wr_backpressure)
@@ -416,19 +373,20 @@ WrbOn ==
   /\ UseWrb /\ ~wrb /\ ~closed
   /\ wrb' = TRUE
   /\ mon' = Mon!StepAll(mon, <<E("ctl", "wrb_on", 0, 0, 0, 0, 0), Quiet>>)
-  /\ UNCHANGED <<inflight, ids, waiters, rxSlot, nextId, closed, sd, owedP, nbad, uses>>
-  /\ hist' = Append(hist, [c |-> "wrb", on |-> 1])
+  /\ UNCHANGED <<inflight, ids, waiters, received, nextId, closed, sd, owedP, nbad, uses>>
+  /\ hist' = Append(hist, "w1")
 
 WrbOff ==
   /\ UseWrb /\ wrb /\ ~closed
   /\ wrb' = FALSE
-  /\ LET n == IF Len(inflight) < Cap THEN Cap - Len(inflight) ELSE 0
+  /\ LET used == UsedOf(inflight, received)
+         n == IF used < Cap THEN Cap - used ELSE 0
          w == WakeN(waiters, sd, n)
      IN /\ waiters' = IF n = 0 THEN waiters ELSE w[1]
         /\ sd' = IF n = 0 THEN sd ELSE w[2]
   /\ mon' = Mon!StepAll(mon, <<E("ctl", "wrb_off", 0, 0, 0, 0, 0), Quiet>>)
-  /\ UNCHANGED <<inflight, ids, rxSlot, nextId, closed, owedP, nbad, uses>>
-  /\ hist' = Append(hist, [c |-> "wrb", on |-> 0])
+  /\ UNCHANGED <<inflight, ids, received, nextId, closed, owedP, nbad, uses>>
+  /\ hist' = Append(hist, "w0")
 
 ----------------------------------------------------------------------------
 Next ==
@@ -446,14 +404,18 @@ Spec == Init /\ [][Next]_vars
 MonOk == Mon!Ok(mon)
 
 TypeOk ==
-  /\ Len(inflight) <= Cap + Len(Kinds)
-  /\ rxSlot \in 0..IdMax
+  /\ Len(inflight) + received <= Cap + Len(Kinds)
+  /\ received \in 0..Cap
   /\ nextId \in 0..(IdMax - 1)
+
+\* C05 on the code's own accounting: the window (queue entries plus receipts awaiting their
+\* release) never exceeds the limit
+WindowInv == Len(inflight) + received <= Cap
 
 \* C13 as a stable-state invariant of the design: when nothing is runnable (every woken or
 \* not-yet-started sender has been polled), the peer has answered everything, back-pressure is
 \* off and the connection is healthy, no live sender is parked on the window
-Runnable(s) == \/ sd[s].pc \in {"lazyR", "lazyE", "rdy"}
+Runnable(s) == \/ sd[s].pc \in {"lazy", "rdy"}
                \/ (sd[s].pc = "parked" /\ sd[s].w # "pend")
                \/ (sd[s].pc = "ack" /\ sd[s].a # "pend")
                \/ (sd[s].pc = "relack" /\ sd[s].a # "pend")
@@ -462,12 +424,9 @@ NoLostWakeup ==
   (~closed /\ ~wrb /\ owedP = << >> /\ nbad = 0 /\ \A s \in Senders : ~Runnable(s))
     => \A s \in Senders : ~(sd[s].pc = "parked" /\ sd[s].w = "pend")
 
-\* the code's own accounting: the queue never holds more first-phase entries than the window
-WindowInv == nbad = 0 => Cardinality({i \in 1..Len(inflight) : inflight[i].tp \in {"Publish", "Receive"}}) <= Cap
-
 \* replay export: one line per explored transition (hist is outside the VIEW, so the prefix
-\* is the first-found = shortest path to the source state)
-Export == PrintT(<<"REPLAY", ToJson(hist)>>)
-ExportNext == Next /\ PrintT(<<"REPLAY", ToJson(hist')>>)
+\* is the first-found = shortest path to the source state).  States in which the monitor has
+\* already failed are terminal: the model's verdict for that command sequence is its reason.
+ExportNext == mon.bad = "none" /\ Next /\ PrintT(<<"REPLAY", mon'.bad, ToJson(hist')>>)
 ExportSpec == Init /\ [][ExportNext]_vars
 =============================================================================
